@@ -6,7 +6,7 @@
    at the exact instance; the extrema of Minimize / Maximize ignoring NaN over any quantities
    (finite, +-inf, NaN) and the value -> weight map of a Bag of numbers (NaN under "nan").  The same
    quantities are also evaluated by the independent exact-rational reference semantics
-   harness/refsem.py on every exact program (Bags of strings and vectors only there). *)
+   harness/refsem.py on every exact program. *)
 From Coq Require Import List Permutation Bool QArith Qcanon.
 From Hgm Require Import NumOps Xq Agg Ops XqFacts SL LeafAlg Algebra Stream Denote LeafDenote.
 Import ListNotations.
@@ -112,6 +112,13 @@ Theorem C02_bag : forall (rs : xrows) k,
   if existsb (fun qw => key_is k (fst qw)) rs then Some (XF (wkey k rs)) else None.
 Proof. exact bag_denote. Qed.
 
+(* ... and for a Bag of any range (strings; numbers; vectors with NaN components marked): the
+   rows the Bag accepts are counted under their key, rows of the wrong type raise and change nothing *)
+Theorem C02_bag_any : forall r (rs : vrows) k,
+  sl_lookup (@bag_cmp Xq) k (lv (lfillsv (LBag r) (leaf_zero (LBag r)) rs)) =
+  if existsb (fun vw => vkey_is r k (fst vw)) rs then Some (XF (wvkey r k rs)) else None.
+Proof. exact bag_denote_any. Qed.
+
 Example C02_extrema_bag_ex :
   let three := XF (Q2Qc 3) in
   let rs := [(XNaN, Q2Qc 1); (three, Q2Qc 2); (XNInf, Q2Qc 1); (three, Q2Qc 1); (XPInf, Q2Qc 1)] in
@@ -124,6 +131,7 @@ Print Assumptions C02_order_independent.
 Print Assumptions C02_minimize.
 Print Assumptions C02_maximize.
 Print Assumptions C02_bag.
+Print Assumptions C02_bag_any.
 Print Assumptions C02_children.
 Print Assumptions C02_sparse_children.
 Print Assumptions C02_count.
